@@ -152,3 +152,4 @@ LEVEL_TEXT = ('Exploration, exhaustive at run time within each instantiated shap
               'full or sampled cross products for 2-D, sampled tuples for ranks 3-5, generated compile-time families; each selected element is compared with the parent element the convention denotes.')
 LEVEL_NOTE = 'trusted: the range convention model (vp_views.h, 30 lines) derived from the library\'s own to_positive rule and the property text'
 DESIGN_REF = 'DESIGN.md section 8 C04'
+THOROUGH_NATIVE = True      # this module's own thorough product (covering sample of 320 pairs) was soaked to silence
